@@ -1,6 +1,6 @@
 #!/bin/bash
 # Confirms a seeded change produced in a scratch worktree (never /repo):
-#   usage: tools/seedverify.sh <ID> [worktree] [outdir]
+#   usage: [SEED_PREFIX=TestSeedA_] [SEED_TAGS=vfs] tools/seedverify.sh <ID> [worktree] [outdir]
 #   1. resets tracked files of the worktree, applies <outdir>/patch.diff (must touch no *_test.go)
 #   2. go build ./... ; runs the demonstration (untracked *_test.go left by the author) -> must FAIL
 #   3. runs the pinned suite (guard off) in the worktree, compares with BASELINE stable_pass -> missing must be 0
@@ -20,9 +20,8 @@ echo "untracked: $demos" >> "$log"
 names=""; pkgs=""
 for f in $demos; do
   for g in $(find "$f" -name '*_test.go' 2>/dev/null); do
-    n=$(grep -hoE '^func (Test[A-Za-z0-9_]+)' "$g" | awk '{print $2}' | paste -sd'|')
-    [ -n "$n" ] && names="${names:+$names|}$n"
-    pkgs="$pkgs ./$(dirname "$g")"
+    n=$(grep -hoE '^func (Test[A-Za-z0-9_]+)' "$g" | awk '{print $2}' | grep -E "^${SEED_PREFIX:-Test}" | paste -sd'|')
+    [ -n "$n" ] && names="${names:+$names|}$n" && pkgs="$pkgs ./$(dirname "$g")"
   done
 done
 pkgs=$(echo $pkgs | tr ' ' '\n' | sort -u | paste -sd' ')
